@@ -504,6 +504,109 @@ def adapter_table_facts(mod):
     return table, default
 
 
+def readheader_facts():
+    """RecordStreamReader.readheader:  <h> = self.fp.read(<n>);  if not <h>.endswith(<M>): raise IOError(...)
+    -> (n, test kind, M).  Test kinds: HEndsWith (`not h.endswith(M)`), HContains (`M not in h`)."""
+    import flow.record.stream as st
+    fn = st.RecordStreamReader.readheader
+    node, body = _fn_ast(fn)
+    if len(body) != 2:
+        raise Unsupported("readheader: expected a read and one check, found %d statements" % len(body))
+    a, c = body
+    if not (isinstance(a, ast.Assign) and len(a.targets) == 1 and _is_name(a.targets[0]) and isinstance(a.value, ast.Call)
+            and isinstance(a.value.func, ast.Attribute) and a.value.func.attr == "read" and len(a.value.args) == 1 and not a.value.keywords
+            and isinstance(a.value.func.value, ast.Attribute) and a.value.func.value.attr == "fp" and _is_name(a.value.func.value.value, "self")):
+        raise Unsupported("%s: expected `<h> = self.fp.read(<n>)`" % _where(fn, a))
+    var = a.targets[0].id
+    n = _const(st, a.value.args[0], fn)
+    if not isinstance(n, int) or isinstance(n, bool) or n < 0:
+        raise Unsupported("%s: header length is not a constant int" % _where(fn, a))
+    if not (isinstance(c, ast.If) and not c.orelse and len(c.body) == 1 and isinstance(c.body[0], ast.Raise)):
+        raise Unsupported("%s: expected `if <test>: raise ...`" % _where(fn, c))
+    exc = c.body[0].exc
+    excname = exc.func.id if isinstance(exc, ast.Call) and _is_name(exc.func) else exc.id if _is_name(exc) else None
+    if excname not in ("IOError", "OSError"):
+        raise Unsupported("%s: the header check raises %s, not IOError" % (_where(fn, c), excname))
+    t = c.test
+    if isinstance(t, ast.UnaryOp) and isinstance(t.op, ast.Not) and isinstance(t.operand, ast.Call) and isinstance(t.operand.func, ast.Attribute) \
+            and t.operand.func.attr == "endswith" and _is_name(t.operand.func.value, var) and len(t.operand.args) == 1:
+        kind, m = "HEndsWith", _const(st, t.operand.args[0], fn)
+    elif isinstance(t, ast.Compare) and len(t.ops) == 1 and isinstance(t.ops[0], ast.NotIn) and _is_name(t.comparators[0], var):
+        kind, m = "HContains", _const(st, t.left, fn)
+    elif isinstance(t, ast.UnaryOp) and isinstance(t.op, ast.Not) and isinstance(t.operand, ast.Compare) and len(t.operand.ops) == 1 \
+            and isinstance(t.operand.ops[0], ast.In) and _is_name(t.operand.comparators[0], var):
+        kind, m = "HContains", _const(st, t.operand.left, fn)
+    else:
+        raise Unsupported("%s: unrecognised header test" % _where(fn, t))
+    if not isinstance(m, bytes):
+        raise Unsupported("%s: header magic is not a bytes constant" % _where(fn, t))
+    return n, kind, m
+
+
+FLAG_MODULE = {"HAS_LZ4": "lz4.frame", "HAS_BZ2": "bz2", "HAS_ZSTD": "zstandard", "HAS_AVRO": "fastavro"}
+
+
+def import_block_facts(mod):
+    """The module-level try/except ImportError blocks of base.py that set the HAS_* flags: for each flag the modules whose
+    import decides it (all imports inside the try that sets it True).  Fail closed on any other way of setting a flag."""
+    import pathlib
+    tree = ast.parse(pathlib.Path(mod.__file__).read_text())
+    deps = {}
+
+    def flag_targets(stmt):
+        if isinstance(stmt, ast.Assign):
+            return [t.id for t in stmt.targets if _is_name(t) and t.id in FLAGS], stmt.value
+        return [], None
+
+    for node in tree.body:
+        if isinstance(node, ast.Try):
+            set_true, mods, others = [], [], []
+            for st in node.body:
+                if isinstance(st, ast.Import):
+                    mods += [a.name for a in st.names]
+                elif isinstance(st, ast.ImportFrom):
+                    mods.append(st.module or ".")
+                else:
+                    fl, val = flag_targets(st)
+                    if fl:
+                        if not (isinstance(val, ast.Constant) and val.value is True):
+                            raise Unsupported("base.py:%d: %s set to something other than True in a try body" % (st.lineno, fl))
+                        set_true += fl
+                    elif not (isinstance(st, ast.Expr) and isinstance(st.value, ast.Constant)):
+                        others.append(st)
+            if set_true and others:
+                raise Unsupported("base.py:%d: unexpected statement in a flag-setting try block" % others[0].lineno)
+            if not set_true:
+                if any(flag_targets(x)[0] for h in node.handlers for x in h.body):
+                    raise Unsupported("base.py:%d: a HAS_* flag is set only in an except handler" % node.lineno)
+                continue
+            if node.orelse or node.finalbody or len(node.handlers) != 1:
+                raise Unsupported("base.py:%d: flag-setting try block with else/finally/several handlers" % node.lineno)
+            h = node.handlers[0]
+            if not (_is_name(h.type) and h.type.id in ("ImportError", "ModuleNotFoundError")):
+                raise Unsupported("base.py:%d: flag-setting try block does not catch ImportError" % h.lineno)
+            set_false = []
+            for st in h.body:
+                fl, val = flag_targets(st)
+                if not fl or not (isinstance(val, ast.Constant) and val.value is False):
+                    raise Unsupported("base.py:%d: the ImportError handler does more than set flags to False" % st.lineno)
+                set_false += fl
+            if sorted(set_true) != sorted(set_false):
+                raise Unsupported("base.py:%d: flags set True %s / False %s differ" % (node.lineno, set_true, set_false))
+            for f in set_true:
+                if f in deps:
+                    raise Unsupported("base.py:%d: %s is set by more than one try block" % (node.lineno, f))
+                deps[f] = list(mods)
+        else:
+            fl, _ = flag_targets(node)
+            if fl:
+                raise Unsupported("base.py:%d: %s assigned outside a try/except ImportError block" % (node.lineno, fl))
+    for f in FLAGS:
+        if f not in deps:
+            raise Unsupported("base.py: no try/except ImportError block sets %s" % f)
+    return deps
+
+
 def header_frame():
     from flow.record import RecordOutput
     buf = io.BytesIO()
@@ -530,6 +633,8 @@ def gen_detect():
     fa_ = find_adapter_facts(base)
     table, default = adapter_table_facts(base)
     frame = header_frame()
+    hlen, hkind, hmagic = readheader_facts()
+    deps = import_block_facts(base)
 
     out = HEADER
     out += "From Coq Require Import List Bool String.\nFrom Coq Require Import Strings.Byte.\nImport ListNotations.\n"
@@ -557,11 +662,17 @@ def gen_detect():
         ["(%s, %s)" % (cbytes(k.encode()), cbytes(v.encode())) for k, v in table.items()])
     out += "(* the bytes RecordOutput(fp).flush() writes before anything else (live) *)\n"
     out += "Definition stream_header_frame : bytes := %s.\n\n" % cbytes(frame)
+    out += "(* RecordStreamReader.readheader: bytes read, and the test that must hold for the header to be accepted *)\n"
+    out += "Definition header_read_len : nat := %s.\nDefinition header_test : htest := %s %s.\n\n" % (cnat(hlen), hkind, cbytes(hmagic))
+    out += "(* base.py import block: for each HAS_* flag the modules whose import (inside the try that sets it) decides it *)\n"
+    out += "Definition flag_deps : list (flag * list bytes) :=\n  %s.\n\n" % clist(
+        ["(%s, %s)" % (FLAGS[f], clist([cbytes(m.encode()) for m in deps[f]])) for f in FLAGS], sep=";\n   ")
     out += "Definition the_facts : facts :=\n  {| f_sniff_chain := sniff_chain; f_sniff_peek := %s; f_writer_passthrough := %s;\n" % (
         cnat(os_["peek"]), cbool(os_["passthrough"]))
     if SHARED:
         out += "     (* NOT per stream: %s *)\n" % "; ".join("%s uses module-level %s" % x for x in SHARED)
     out += "     f_private_codec_state := %s;\n" % cbool(not SHARED)
+    out += "     f_header_read_len := header_read_len; f_header_test := header_test; f_flag_deps := flag_deps;\n"
     out += "     f_ext_chain := ext_chain; f_path_fallback_sniffs := %s; f_stdin_fallback_sniffs := %s;\n" % (
         cbool(op_["fallback"][0]), cbool(op_["fallback"][1]))
     out += "     f_cont_chain := cont_chain; f_cont_peek := %s;\n" % cnat(fa_["peek"])
